@@ -1223,6 +1223,26 @@ func init() {
 			cs := c16GenCase(r, id(), "wide", t, big, c.N(60, 300))
 			emit(cs, "valid")
 		}
+		// more than 2^16 elements: element positions (rank offsets, byte offsets into Elts) beyond
+		// 16 bits, for every scalar type (seeded change C16-w5a: U64.Get adds offsets in uint16)
+		for i := 0; i < 6; i++ {
+			t := c16Types[i]
+			r := c.R.Fork()
+			n := 66000 + r.Intn(c.N(6000, 30000))
+			lo := r.Intn(c16Max - n - 64)
+			ix := make([]int32, 0, n)
+			for j := 0; j < n; j++ {
+				if j < 400 && r.Intn(8) == 0 {
+					continue
+				}
+				ix = append(ix, int32(lo+j))
+			}
+			cs := &c16Case{ID: id(), Shape: "huge", T: t, Idx: ix}
+			cs.Vals = c16GenVals(r, t, len(ix))
+			cs.Probes = c16GenProbes(r, ix, 40)
+			cs.Probes = append(cs.Probes, ix[65535], ix[65536], ix[65537], ix[len(ix)-1], ix[len(ix)-1]+1, ix[65536+r.Intn(len(ix)-65536)])
+			emit(cs, "valid")
+		}
 		// the wire format: messages given by their fields, and arbitrary byte strings
 		c16WireCases(c, c16WireSeeds)
 	})
